@@ -167,7 +167,7 @@ def wire_stats(world):
 
 def gen_case(rng, tier):
     from .. import mixgen
-    cfg = mixgen.draw_config(rng)
+    cfg = mixgen.draw_config(rng, links_allowed=mixgen.WITH_WS)
     n_c = rng.choice([0, 1, 1, 2, 3, 6])
     n_s = rng.choice([0, 1, 1, 2, 3, 6])
     if n_c + n_s == 0:
